@@ -183,7 +183,9 @@ def driver_build(srcs, variant, extra_flags=(), name=None):
     if err:
         return None, err
     name = name or os.path.splitext(os.path.basename(srcs[0]))[0]
-    key = file_hash(*srcs) + "-" + hashlib.sha256(" ".join(extra_flags).encode()).hexdigest()[:8]
+    import glob as _glob
+    hdrs = sorted(_glob.glob(os.path.join(VERIF, "harness", "*.h")))      # headers the drivers include
+    key = file_hash(*(list(srcs) + hdrs)) + "-" + hashlib.sha256(" ".join(extra_flags).encode()).hexdigest()[:8]
     exe = os.path.join(libdir, "%s-%s" % (name, key))
     with flock(exe + ".lock"):
         if os.path.exists(exe):
@@ -276,8 +278,9 @@ def ensure_tables():
     libdir, err = lib_build("asan")
     if err:
         return None, err
-    cache = os.path.join(os.path.dirname(libdir), "Tables.v")
-    info_cache = os.path.join(os.path.dirname(libdir), "Tables.json")
+    tkey = file_hash(os.path.join(VERIF, "translate", "cxx2coq.py"))[:10]      # a changed translator invalidates its cache
+    cache = os.path.join(os.path.dirname(libdir), "Tables-%s.v" % tkey)
+    info_cache = os.path.join(os.path.dirname(libdir), "Tables-%s.json" % tkey)
     dst = os.path.join(COQ, "gen", "Tables.v")
     os.makedirs(os.path.dirname(dst), exist_ok=True)
     os.makedirs(BUILD, exist_ok=True)
@@ -416,7 +419,7 @@ class Verdict:
               "coverage": self.coverage, "assumptions": self.assumptions,
               "wall_s": round(time.time() - self.t0, 2), "violations": len(self.violations),
               "known_findings": self.known, "repo_hash": repo_hash()}
-        suffix = ".dev.json" if os.environ.get("VERIF_DEV_SKIP_PROOF") else ".json"   # dev runs never overwrite real evidence
+        suffix = ".dev.json" if (os.environ.get("VERIF_DEV_SKIP_PROOF") or os.path.realpath(REPO) != "/repo") else ".json"   # dev runs never overwrite real evidence
         with open(os.path.join(VERIF, "evidence", self.pid + suffix), "w") as fh:
             json.dump(ev, fh, indent=1, default=str)
         for k in self.known:
